@@ -64,7 +64,8 @@ def tokenize(
             token.update(char, i)
             take -= 1
             continue
-        if quote_context and char == "\\":
+        if quote_context and char == "\\" and quote_context[-1] != "`":
+            # (back-quoted names are taken verbatim and have no escapes)
             token.update(char, i)
             take = 1
             continue
